@@ -293,6 +293,7 @@ func (f *Frame) loopHead(li *loopInfo, preds []*ssa.BasicBlock, edges []string) 
 		entryPhis[phi] = f.phiTerm(phi, preds, edges)
 		delete(f.vals, phi)
 	}
+	li.entryPhis = entryPhis
 	if li.spec != nil {
 		for i, inv := range li.spec.Invs {
 			t := f.loopExpr(li, inv, entryPhis, f.cur, f.cur)
@@ -623,6 +624,18 @@ func (f *Frame) loopExpr(li *loopInfo, c *Clause, phis map[*ssa.Phi]string, st *
 	env.visitedOf = f.visitedFn(li)
 	if li.entryState != nil {
 		env.loopEntry = stateHeap{f, li.entryState}
+		es := li.entryState
+		env.lookupEntry = func(name string) (TV, bool) {
+			if name == "_k" && li.isRange != nil {
+				return TV{"0", types.Typ[types.Int]}, true
+			}
+			for phi, t := range li.entryPhis {
+				if phi.Comment == name {
+					return TV{t, phi.Type()}, true
+				}
+			}
+			return f.lookupVarAt(name, li.head, es)
+		}
 	}
 	tv, err := env.tr(c.Expr)
 	if err != nil {
@@ -663,6 +676,26 @@ func (f *Frame) lookupVarFrom(name string, d0 *ssa.BasicBlock, st *State) (TV, b
 // instructions before index idx are scanned (idx < 0: the whole block).
 func (f *Frame) lookupVarFromIdx(name string, d0 *ssa.BasicBlock, idx int, st *State) (TV, bool) {
 	cellOf := func(obj types.Object) (TV, bool) {
+		// a variable that lives in a cell (captured by a closure, or its
+		// address taken): go/ssa gives the cell's Alloc the position of the
+		// declaring identifier
+		if obj != nil && obj.Pos().IsValid() {
+			for _, b := range f.fn.Blocks {
+				for _, in := range b.Instrs {
+					a, ok := in.(*ssa.Alloc)
+					if !ok || a.Comment != name || a.Pos() != obj.Pos() {
+						continue
+					}
+					if lv, ok := f.lvals[a]; ok {
+						return TV{f.readLV(st, lv), lv.ty}, true
+					}
+					if t, ok := f.vals[a]; ok {
+						pt := a.Type().Underlying().(*types.Pointer)
+						return TV{f.loadPtr(st, t, pt.Elem()), pt.Elem()}, true
+					}
+				}
+			}
+		}
 		for _, r := range f.debug[name] {
 			if r.obj != obj || !r.addr {
 				continue
